@@ -7,6 +7,8 @@ Time is virtual: when nothing is runnable the clock jumps to the next timer.
 """
 import _thread
 import heapq
+import os
+import random
 import sys
 import threading as _real_threading
 
@@ -703,6 +705,33 @@ TIME = SimTimeModule()
 _installed = [False]
 
 
+class SimOsModule(object):
+    """stands in for `os` inside nfc.dep: urandom() comes from the run's choice stream"""
+    def __getattr__(self, name):
+        return getattr(os, name)
+
+    def urandom(self, n):
+        k = CURRENT[0]
+        if k is None:
+            return os.urandom(n)
+        return k.sim.bytes("urandom", n, tag=len(k.sim.trace) & 0xFFFF)
+
+
+class SimRandomModule(object):
+    """stands in for `random` inside nfc.llcp.llc (service discovery transaction ids)"""
+    def __getattr__(self, name):
+        return getattr(random, name)
+
+    def choice(self, seq):
+        k = CURRENT[0]
+        if k is None:
+            return random.choice(seq)
+        return seq[k.sim.choose("random.choice", len(seq))]
+
+
+OS, RANDOM = SimOsModule(), SimRandomModule()
+
+
 def install(nfc):
     """replace the threading/time seams of the nfc modules once per process"""
     if _installed[0]:
@@ -722,6 +751,8 @@ def install(nfc):
         m.threading = THREADING
     for m in (nfc.clf, nfc.dep, nfc.llcp.llc, nfc.handover.client, nfc.tag.tt1, nfc.tag.tt2, nfc.tag.tt3):
         m.time = TIME
+    nfc.dep.os = OS
+    nfc.llcp.llc.random = RANDOM
     for cls in (nfc.snep.server.SnepServer, nfc.handover.server.HandoverServer):
         cls.__bases__ = (SimThread,)
     _installed[0] = True
